@@ -41,8 +41,11 @@ Toks       == {"A", "B", "N", "P1", "P2", "E"}
 (*   valid_upgrade  valid_post carrying "Connection: Upgrade" and "Upgrade: websocket" -- headers a client chooses;     *)
 (*                  the handler under test is an ordinary HTTP handler, so they change nothing                        *)
 (*   opt_anon       GET /optional  (security: [{key}, {}] -- anonymous access allowed), no key sent                   *)
-(*   nf_path / nf_method           no such path / method not declared under the path        *)
+(*   nf_path / nf_method           no such path / method (DELETE) not declared under the path *)
+(*   nf_options / nf_head          OPTIONS / HEAD on /items: methods with a life of their own in HTTP (preflight, headers    *)
+(*                  only) but none in the document -- no route                                                           *)
 (*   inv_body / inv_param          POST /items with a schema-violating body / query param   *)
+(*   inv_nobody     POST /items?n=1 without a body (requestBody is required)                 *)
 (*   inv_pathlevel  GET /plain/abc (path-level integer parameter violated)                  *)
 (*   valid_secure / inv_security / sec_nokey   GET /secure (operation-level security requirement [{key}]) with       *)
 (*                  X-Key: good / X-Key: bad / no X-Key header                                                       *)
@@ -52,8 +55,8 @@ Toks       == {"A", "B", "N", "P1", "P2", "E"}
 (* Whether a request that meets a security requirement validates depends on the AuthenticationFunc the gate was      *)
 (* configured with (cfg.auth), whether a body / query violation matters depends on the Options (cfg.opt).             *)
 BaseValid       == {"valid_post", "valid_plain", "valid_upgrade", "opt_anon", "g_open"}
-NotFoundClasses == {"nf_path", "nf_method"}
-BaseInvalid     == {"inv_body", "inv_param", "inv_pathlevel"}
+NotFoundClasses == {"nf_path", "nf_method", "nf_options", "nf_head"}
+BaseInvalid     == {"inv_body", "inv_param", "inv_pathlevel", "inv_nobody"}
 SecGood         == {"valid_secure", "g_good"}
 SecBad          == {"inv_security", "sec_nokey", "g_bad"}
 SecClasses      == SecGood \cup SecBad
@@ -91,7 +94,7 @@ AuthAccepts(c) ==
 RequestValid(c) ==
    \/ c.reqClass \in BaseValid
    \/ c.reqClass \in SecClasses /\ AuthAccepts(c)
-   \/ c.reqClass = "inv_body"  /\ c.opt = "excl_req_body"     \* Options.ExcludeRequestBody
+   \/ c.reqClass \in {"inv_body", "inv_nobody"} /\ c.opt = "excl_req_body"     \* Options.ExcludeRequestBody
    \/ c.reqClass = "inv_param" /\ c.opt = "excl_query"        \* Options.ExcludeRequestQueryParams
 
 (* the bytes behind each body token; P1 \o P2 = A on purpose (writes in pieces) *)
@@ -292,6 +295,8 @@ CfgOK(c) ==
    \* same time, never shows in this one
    /\ (c.primer # "none" => c.gate = "validator" /\ c.strict /\ c.errMode = "custom" /\ c.opt = "none" /\ c.auth = "callback"
                              /\ c.reqClass \in {"valid_post", "inv_body"})
+   \* gate "validator": NewValidator(router, options...).Middleware(handler under test); the same Validator then wraps a
+   \*    second handler (one Validator, many wrappers: each runs its own handler)
    \* gate "vhandler": ValidationHandler{Handler, AuthenticationFunc, ErrorEncoder}.ServeHTTP;
    \* gate "vhandler_mw": ValidationHandler.Middleware(next) around the handler under test, created next to a second
    \*    wrapper of the SAME ValidationHandler around another handler (each wrapper must run its own handler)
@@ -324,7 +329,7 @@ ErrFuncOut(status, h) ==
                              [e |-> "W", data |-> "X", ct |-> h]>>]
 
 (* statuses ConvertErrors + DefaultErrorEncoder give for the request classes of the test document *)
-VHStatus(rc) == CASE rc = "nf_path" -> 404 [] rc = "nf_method" -> 405 [] rc = "inv_body" -> 422 [] rc = "inv_param" -> 400
+VHStatus(rc) == CASE rc = "nf_path" -> 404 [] rc \in {"nf_method", "nf_options", "nf_head"} -> 405 [] rc = "inv_body" -> 422 [] rc = "inv_param" -> 400
                   [] rc = "inv_pathlevel" -> 404 [] OTHER -> 500
 
 Gate ==   \* FindRoute / ValidateRequest fail: log, errFunc, return
